@@ -161,6 +161,9 @@ def setWhere (A : Arr α) (M : Arr Bool) (s : α) : Arr α :=
   { A with get := fun i j => if M.get i j then s else A.get i j,
            ok := A.ok && M.ok && A.r == M.r && A.c == M.c }
 
+/-- `np.fill_diagonal(A, s)` on a 2-D array (in place; `wrap=False`): the entries `A[i, i]`, `i < min(r, c)`, become `s` -/
+def fillDiagonal (A : Arr α) (s : α) : Arr α := { A with get := fun i j => if i = j then s else A.get i j }
+
 /-- `A[:, m] = s` for a 1-D Boolean array `m` with one entry per column of `A` -/
 def setColsWhere (A : Arr α) (m : Arr Bool) (s : α) : Arr α :=
   { A with get := fun i j => if m.get 0 j then s else A.get i j,
